@@ -13,9 +13,10 @@ def oracle(chk, good):
         tol = float.fromhex(o['tol'])
         # independent junction clustering: union-find over non-grounded ends within tol
         ends = []
+        gflags = {g['n']: stage_topo.ground_flags(o, g) for g in o['geos']}     # from the coordinates, not from the object
         for g in o['geos']:
             for e, key in ((0, 'p1'), (1, 'p2')):
-                if not g['gnd'][e]:
+                if not gflags[g['n']][e]:
                     ends.append((g['n'], e, [float.fromhex(v) for v in g[key]]))
         par = list(range(len(ends)))
         def find(x):
@@ -39,7 +40,7 @@ def oracle(chk, good):
                 for b in c:
                     if a < b and math.dist(ends[a][2], ends[b][2]) > tol:
                         amb = True
-        expect = sum(g['nseg'] - 1 for g in o['geos']) + sum(int(x) for g in o['geos'] for x in g['gnd']) \
+        expect = sum(g['nseg'] - 1 for g in o['geos']) + sum(int(x) for g in o['geos'] for x in gflags[g['n']]) \
                  + sum(len(c) - 1 for c in clusters.values())
         key = json.dumps(r['spec'], sort_keys=True)
         chk.add_case('or:' + key, len(o['geos']) > 1, sample=dict(oracle='c12', objects=len(o['geos']), pulses=len(o['pulses']),
@@ -48,7 +49,7 @@ def oracle(chk, good):
             chk.violation(dict(stage='c12-oracle', what='pulse count'),
                           '%d pulses, topology demands %d (segments-1: %d, grounded ends: %d, junction extras: %d)' % (
                               len(o['pulses']), expect, sum(g['nseg'] - 1 for g in o['geos']),
-                              sum(int(x) for g in o['geos'] for x in g['gnd']), sum(len(c) - 1 for c in clusters.values())), r['spec'])
+                              sum(int(x) for g in o['geos'] for x in gflags[g['n']]), sum(len(c) - 1 for c in clusters.values())), r['spec'])
         # numbering 0..N-1 without gaps in object order
         idx = [p['idx'] for p in o['pulses']]
         if idx != list(range(len(idx))):
